@@ -281,13 +281,14 @@ func OracleResult(prop string, v *View) []Violation {
 	// A fallback detector that gave up while a step goroutine was merely held up is C09's finding; the
 	// other properties leave such runs to it. Giving up with nothing held up means the run really lost
 	// its way, and that is everybody's business.
-	shape, heldUp := stalledShape(v)
+	shape, heldUp, claims := stalledShapeParts(v)
 	attribute := func(vs []Violation) []Violation {
 		if heldUp && prop != "C09" {
 			return nil
 		}
 		for i := range vs {
 			vs[i].Shape += shape
+			vs[i].Parts = append(vs[i].Parts, claims...)
 		}
 		return vs
 	}
@@ -839,8 +840,16 @@ var spawnPart = regexp.MustCompile(`[^/]+/[^/]+\.go:\d+(#\d+)?`)
 // that is still running are covered by the loop step's own "running" state. The second result says
 // whether any was held up at all.
 func stalledShape(v *View) (string, bool) {
+	sh, held, _ := stalledShapeParts(v)
+	return sh, held
+}
+
+// stalledShapeParts is stalledShape plus, for the goroutines waiting to enter a notification, what each
+// of them had last written to a step state field and where ("finished in *runningStep.completeStep"):
+// the step claims that state while the notification that justifies it is still undelivered.
+func stalledShapeParts(v *View) (string, bool, []string) {
 	if v.C0 == nil || len(v.R.Snapshots) == 0 {
-		return "", false
+		return "", false, nil
 	}
 	// the give-up that explains the result: the run's own if it failed with that error, else a sub-run's
 	var sn *simrt.Snapshot
@@ -853,14 +862,30 @@ func stalledShape(v *View) (string, bool) {
 		}
 	}
 	if sn == nil {
-		return "", false
+		return "", false, nil
 	}
+	return snapshotShape(sn)
+}
+
+// snapshotShape classifies one give-up of a fallback detector by where the goroutines of its own
+// (sub-)workflow were held up (see stalledShape).
+func snapshotShape(sn *simrt.Snapshot) (string, bool, []string) {
 	root := runRoot(sn.G)
 	prefix := ""
 	if strings.Contains(root, "provider.go:") {
 		prefix = "; the detector of a sub-workflow gave up"
 	}
 	inNotify, elsewhere := 0, map[string]bool{}
+	claims := map[string]bool{}
+	claim := func(name string) {
+		st, ok := sn.States[name]
+		if !ok {
+			claims["no state written"] = true
+			return
+		}
+		i := strings.Index(st, "@")
+		claims[st[:i]+" in "+SiteFunc[st[i+1:]]] = true
+	}
 	for _, o := range sn.Others {
 		if strings.Contains(o, " after@") {
 			continue // blocked natively: not runnable, so not held up by the scheduler
@@ -885,19 +910,21 @@ func stalledShape(v *View) (string, bool) {
 		switch {
 		case fn == "*loopState.onStageComplete" && SiteKind[site] == "lock":
 			inNotify++
+			claim(role)
 		case fn == "*executableWorkflow.Execute" && SiteKind[site] == "lock":
 			inNotify++ // the onStepStageFailure closure
+			claim(role)
 		default:
 			elsewhere[fn] = true
 		}
 	}
 	if inNotify > 0 {
-		return prefix + "; a held-up step goroutine is waiting to enter a stage-change notification", true
+		return prefix + "; a held-up step goroutine is waiting to enter a stage-change notification", true, keys(claims)
 	}
 	if len(elsewhere) == 0 {
-		return prefix + "; no step goroutine was held up", false
+		return prefix + "; no step goroutine was held up", false, nil
 	}
-	return prefix + "; step goroutines held up in: " + strings.Join(keys(elsewhere), ","), true
+	return prefix + "; step goroutines held up in: " + strings.Join(keys(elsewhere), ","), true, nil
 }
 
 // stoppedBeforeStart is C04's third clause: a step whose stop condition fired before it could start
@@ -952,4 +979,15 @@ func stoppedBeforeStart(prop string, v *View, obs *ref.Facts) []Violation {
 		}
 	}
 	return out
+}
+
+// anyGiveUpWithHeldUpGoroutine says whether some fallback detector of the run gave up while a goroutine
+// of its own (sub-)workflow was held up by the scheduler: the run's result is then C09's business.
+func anyGiveUpWithHeldUpGoroutine(r *harness.Result) bool {
+	for i := range r.Snapshots {
+		if _, held, _ := snapshotShape(&r.Snapshots[i]); held {
+			return true
+		}
+	}
+	return false
 }
